@@ -85,7 +85,7 @@ class Recorder:
                 v, opts = fn(geo, tuple(where), np.array(G), nrm, rng, bare=bare, **kw)
             rec["opts"] = opts
             v = complex(np.asarray(v).reshape(-1)[0]) if np.ndim(v) else complex(v)
-            rec["ongrid"], rec["val"] = U.snap_scalar(v, geo.den if nrm else 1)
+            rec["ongrid"], rec["val"] = U.snap_scalar(v, geo.den if nrm else 1, geo.den * float(np.abs(G).sum()))
             rec["raw"] = [float(v.real), float(v.imag)]
             self._count(route, "returned")
         except U.Skip:
@@ -95,6 +95,51 @@ class Recorder:
             self._exc(rec, ex)
         self.recs.append(rec)
         return rec
+
+    # ------------------------------------------------------------------ several terms in one call
+    def multi(self, route, wheres, nrm, rng, recname=None):
+        """`compute_*` with a dict of terms: each returned value is an `expect` observation
+        (return_all=True) or their sum is one `expectsum` observation"""
+        geo = self.geo
+        fn = U.MULTI_ROUTES[route]
+        lattice = route.startswith("peps_")
+        terms, items = {}, []
+        for w in wheres:
+            ds = [geo.dims[geo.pos[s]] for s in w]
+            kind = rng.choice(["full", "prod"])
+            G, _ = U.rand_op(np.random.default_rng(rng.randrange(1 << 30)), ds, kind)
+            bare = lattice and len(w) == 1
+            key = w[0] if bare else tuple(w)
+            terms[key] = np.array(G)
+            items.append((key, w, bare, kind, G))
+        ra = rng.random() < 0.6
+        scale = geo.den if nrm else 1
+        base = {"tid": self.tid, "route": route, "nrm": bool(nrm), "exc": "", "excmsg": "", "ongrid": True, "opts": ""}
+        try:
+            with warnings.catch_warnings():
+                warnings.simplefilter("ignore")
+                x, opts = fn(geo, terms, nrm, ra, rng)
+            out = []
+            if ra:
+                for key, w, bare, kind, G in items:
+                    rec = self._base("expect", recname or route, w, bare, nrm)
+                    rec.update({"G": snap_garray(G.reshape(-1), 1e-9), "kind": kind, "opts": "%s,terms=%d,%s" % (route, len(items), opts)})
+                    rec["ongrid"], rec["val"] = U.snap_scalar(complex(x[key]), scale, geo.den * float(np.abs(G).sum()))
+                    out.append(rec)
+            else:
+                rec = dict(base, ev="expectsum", opts="terms=%d,%s" % (len(items), opts),
+                           terms=[{"sites": [geo.pos[s] + 1 for s in w], "G": snap_garray(G.reshape(-1), 1e-9)} for _, w, _, _, G in items])
+                rec["ongrid"], rec["val"] = U.snap_scalar(complex(x), scale, geo.den * sum(float(np.abs(G).sum()) for *_, G in items))
+                out.append(rec)
+            self.recs += out
+            self._count(route + "[terms]", "returned")
+        except Exception as ex:  # noqa
+            rec = dict(base, ev="expectsum", val=[0, 0],
+                       terms=[{"sites": [geo.pos[s] + 1 for s in w], "G": snap_garray(G.reshape(-1), 1e-9)} for _, w, _, _, G in items])
+            rec["route"] = route + "[terms]"
+            self._exc(rec, ex)
+            rec["route"] = route
+            self.recs.append(rec)
 
     # ------------------------------------------------------------------ matrix routes
     def rdm(self, route, where, bare, nrm, rng):
@@ -111,10 +156,10 @@ class Recorder:
             n = int(np.prod([geo.dims[geo.pos[s]] for s in where]))
             if m.ndim != 2:
                 m = m.reshape(n, -1)
-            rec["ongrid"], rec["mat"] = U.snap_matrix(m, geo.den if nrm else 1)
+            rec["ongrid"], rec["mat"] = U.snap_matrix(m, geo.den if nrm else 1, geo.den)
             rec["hq"] = qdiff(m, m.conj().T, 1e-9) if m.shape[0] == m.shape[1] else 999999
             if "nfactor" in extra:
-                ok, nf = U.snap_scalar(extra["nfactor"], 1)
+                ok, nf = U.snap_scalar(extra["nfactor"], 1, geo.den)
                 rec["has_nf"] = True
                 rec["nf"] = nf if ok else [-1, -1]
             self._count(route, "returned")
@@ -143,13 +188,13 @@ class Recorder:
                 if route == "mpo_trace":
                     mpo = geo.tn.partial_trace_to_mpo(list(where), rescale_sites=rng.choice([True, False]))
                     v = mpo.trace()
-                    rec["ongrid"], rec["val"] = U.snap_scalar(v, 1)
+                    rec["ongrid"], rec["val"] = U.snap_scalar(v, 1, geo.den)
                 else:
                     w = where[0] if bare else tuple(where)
                     op = U.operator_form(geo, w, rng)
                     if route == "operator_trace":
                         v = op.trace()
-                        rec["ongrid"], rec["val"] = U.snap_scalar(v, 1)
+                        rec["ongrid"], rec["val"] = U.snap_scalar(v, 1, geo.den)
                     else:
                         sysa = [where[p] for p in sys_pos]
                         how = rng.choice(["copy", "inplace"])
@@ -160,7 +205,7 @@ class Recorder:
                         else:
                             pt = op.copy()
                             pt.partial_transpose_(arg)
-                        rec["ongrid"], rec["mat"] = U.snap_matrix(U.op_dense(pt, where), 1)
+                        rec["ongrid"], rec["mat"] = U.snap_matrix(U.op_dense(pt, where), 1, geo.den)
             self._count(route, "returned")
         except U.Skip:
             self._count(route, "skipped")
@@ -186,7 +231,7 @@ class Recorder:
                 with warnings.catch_warnings():
                     warnings.simplefilter("ignore")
                     v = geo.tn.compute_norm(**kw)
-                rec["ongrid"], rec["val"] = U.snap_scalar(v, 1)
+                rec["ongrid"], rec["val"] = U.snap_scalar(v, 1, geo.den)
                 self._count(route, "returned")
             except Exception as ex:  # noqa
                 self._exc(rec, ex)
@@ -231,20 +276,27 @@ def pick_tuple(geo, n, asc, rng, want_adj=None):
 
 
 def run(ctx):
+    import time
     quick = ctx.tier == "quick"
     rng = random.Random(1300 + ctx.seed)
+    t0 = time.time()
+    phase = {}
+
+    def lap(name):
+        nonlocal t0
+        phase[name] = round(time.time() - t0, 1)
+        t0 = time.time()
 
     # ---- 1. TLC: route families and laws of the reference on every small state
-    import os
-    DEV = bool(os.environ.get("QV_C13_DEV"))
-    if not DEV: ctx.model_check("MC_C13", "MC_quick.cfg" if quick else "MC_thorough.cfg", name="route families x states",
+    ctx.model_check("MC_C13", "MC_quick.cfg" if quick else "MC_thorough.cfg", name="route families x states",
                     require_actions=MODEL_ACTIONS, timeout=2400)
-    for cfg, inv, what in ([] if DEV else SELFTESTS[:2] if quick else SELFTESTS):
+    for cfg, inv, what in (SELFTESTS[:2] if quick else SELFTESTS):
         r = T.run_tlc("MC_C13", cfg, ctx.spec_dir, workers=2, allow_violation=True, scratch=ctx.scratch, timeout=600)
         if r.violated != inv:
             raise MachineryError("model self-test %s: %s was not violated" % (cfg, inv))
         ctx.extra.setdefault("model_selftests", []).append("%s: %s violates %s" % (cfg, what, inv))
 
+    lap("tlc_model+selftests")
     # ---- 2. the table of exercised requests, printed by the model
     rt = T.run_tlc("MC_C13", "MC_cases.cfg", ctx.spec_dir, workers=1, scratch=ctx.scratch, timeout=600)
     printed = T.parse_printed_json(rt.output)
@@ -281,6 +333,7 @@ def run(ctx):
             pools[key] = out
         return pools[key]
 
+    lap("tlc_cases")
     # ---- 3. S->C: every request of the table on a real network
     nasked = 0
     for key in sorted(table, key=str):
@@ -302,6 +355,7 @@ def run(ctx):
                 rec.ask(c["route"], where, bare, c["nrm"], rng, op=(kind, G, fs))
                 nasked += 1
 
+    lap("replay_table")
     # ---- 3b. S->C: the small states TLC enumerated, realised as real two-site networks
     states.sort(key=lambda c: (c["dims"], c["psi"]))
     chosen = states if not quick else rng.sample(states, 40)
@@ -321,6 +375,7 @@ def run(ctx):
                 rec.ask(c["route"], where, False, c["nrm"], rng)
                 nasked += 1
 
+    lap("replay_states")
     # ---- 4. C->S: random networks, every kind of ordered tuple, every available route, random options
     sweep_geos = 2 if quick else 8
     per_shape = 1 if quick else 3
@@ -346,11 +401,31 @@ def run(ctx):
                                 continue
                             rec.ask(c["route"], where, bare, c["nrm"], rng)
                             nasked += 1
+                # several terms in one call (shared environments / plaquettes / canonical sweeps)
+                for route in sorted(U.MULTI_ROUTES):
+                    troute = {"compute_local_expectation_cluster": "local_expectation_cluster"}.get(route, route)   # name in the table
+                    singles = [c for c in table.get((cls, thin, 1, True, route.startswith("peps_")), []) if c["route"] == troute and c["avail"]]
+                    if not singles:
+                        continue
+                    for rep in range(1 if quick else 3):
+                        for nrm in (True, False):
+                            wheres = []
+                            for _ in range(rng.choice([2, 3, 4])):
+                                n = rng.choice([1, 2, 2, 3] if (3 in [k[2] for k in table if k[0] == cls]) and len(geo.sites) >= 3 else [1, 2, 2])
+                                asc = True if route.startswith("peps_") else rng.choice([True, False])
+                                if any(c["route"] == troute and c["avail"] and c["nrm"] == nrm for c in table.get((cls, thin, n, asc if n > 1 else True, route.startswith("peps_") and n == 1), [])):
+                                    w = pick_tuple(geo, n, asc if n > 1 else True, rng)
+                                    if w is not None and w not in wheres:
+                                        wheres.append(w)
+                            if len(wheres) >= 2:
+                                rec.multi(route, wheres, nrm, rng, recname=troute)
+                                nasked += 1
                 if cls == "peps":
                     for _ in range(2 if quick else 4):
                         rec.ask("peps_compute_norm", geo.sites[:1], False, True, rng)
                         rec.ask("peps_normalize", geo.sites[:1], False, True, rng)
 
+    lap("random_sweeps")
     # ---- 5. TLC judges
     recs = []
     for r in recorders:
@@ -364,6 +439,8 @@ def run(ctx):
                                                          sort_keys=True).encode()).hexdigest()
     fails = ctx.validate("C13_Trace", "Trace.cfg", recs, name="routes", ntraces=sum(1 for r in recorders if len(r.recs) > 1), chunk=3000)
 
+    lap("tlc_trace_validation")
+    ctx.extra["phase_wall_s"] = phase
     # ---- evidence
     unavailable = {}
     examples = {}
@@ -401,10 +478,10 @@ def run(ctx):
     ctx.assumptions += [
         "exact domain: tensor entries in {-1,0,1}+i{-1,0,1}; the dense state (numpy on public tensor data) is Gaussian-integer, non-real, 0 < <psi|psi> <= %d; total dimension <= 64 (256 for the 2x2x2 PEPS3D)" % U.DENMAX,
         "operators: Gaussian-integer, non-symmetric, non-Hermitian, complex; full matrices or Kronecker products of distinct one-site factors; first factor acts on sites[0]",
-        "a returned float is value*<psi|psi> (normalised) or the value (unnormalised) snapped to Z[i] within %g lattice units; an off-lattice value fails OnGrid" % U.SNAPTOL,
+        "a returned float is value*<psi|psi> (normalised) or the value (unnormalised) snapped to Z[i] within max(%g, 1e-9 * natural bound) <= 0.05 lattice units (bound = <psi|psi>*sum|G| resp. <psi|psi>); an off-lattice value fails OnGrid" % U.SNAPTOL,
         "an exception is 'route unavailable for this input' (listed in route_unavailable_for_input), not a violation; NOTE:AvailabilityDrift reports disagreement with the transcribed table",
         "bond caps are untruncating (max_bond None/64/256/1024 >= exact), clusters span the network (max_distance > diameter, one supplied gloop = all sites)",
-        "simple-update gauges are converged with tol 1e-14 and used only when the gauged network denotes the same state to 1e-10 (numpy)",
+        "simple-update gauges are converged with tol 1e-14 and used only when the gauged network denotes the same state to 1e-12 (numpy)",
     ]
     notes = [f for f in fails if f["clause"].startswith("NOTE:")]
     for f in notes[:40]:
